@@ -94,8 +94,12 @@ func propTable() map[string]PropSpec {
 	c15 := func(thorough bool) []TaskSpec {
 		var hours, parse, write [][]int64
 		if thorough {
+			// hh:mm writer: every hour 0..99; hh:mm:ss writer (the expensive one: 2-4 min per hour): hours 0..23 and 99
 			for h := int64(0); h < 100; h++ {
-				hours = append(hours, []int64{0, h, -1}, []int64{1, h, -1})
+				hours = append(hours, []int64{1, h, -1})
+				if h < 24 || h == 99 {
+					hours = append(hours, []int64{0, h, -1})
+				}
 			}
 			for lo := int64(15079); lo <= 65535; lo += 2048 {
 				hi := lo + 2047
@@ -106,8 +110,8 @@ func propTable() map[string]PropSpec {
 					parse = append(parse, []int64{lo, hi, w})
 				}
 			}
-			for y := int64(1900); y <= 2038; y += 16 {
-				hi := y + 15
+			for y := int64(1900); y <= 2038; y += 8 {
+				hi := y + 7
 				if hi > 2038 {
 					hi = 2038
 				}
@@ -140,7 +144,7 @@ func propTable() map[string]PropSpec {
 		ID: "C15", Quick: c15(false), Thorough: c15(true),
 		Bounds: map[string]string{
 			"quick":    "BCD: all 2^8 bytes, all 2^16/2^24 raw duration patterns; duration writers: hh:mm writer for hours in {0,9,10,23,99} x all minutes, seconds and sub-second fractions (2^30); hh:mm:ss writer for (hour,minute) in {(0,0),(9,59),(10,30),(23,59),(99,59)} x all seconds and fractions; date decode: 4 MJD chunks of 256 values containing 1900-03-01, 2000-02-29, 2038-04-22 and 1970-01-01 x all BCD times of day; date encode: years 1900-1904, 1999-2001, 2036-2038, every day, 3 times of day; all 2^40 raw patterns for panic-freedom; pass-through: EIT start_time/duration, TOT UTC_time and the local time offset descriptor (input: every 40/24/16-bit pattern; output: every date and offset) hand their fields to these kernels unchanged",
-			"thorough": "duration writers: all hours 0..99; date decode: all MJD 15079..65535 (25 chunks); date encode: all years 1900..2038",
+			"thorough": "duration writers: hh:mm for all hours 0..99, hh:mm:ss for hours 0..23 and 99 (all minutes, seconds, fractions); date decode: all MJD 15079..65535 (25 chunks); date encode: all years 1900..2038",
 		},
 		Outside:     "non-UTC locations; normalisation inside time.Date (std); dates before 1900-03-01 (outside the property)",
 		Assumptions: []string{"time.Time stub: (Y,M,D,ns-of-day) tuple, UTC, arguments of time.Date already normalised (true for every input in the domain: 1<=M<=12, 1<=D<=days(Y,M), time of day < 24h)", "floating point is encoded exactly (SMT FloatingPoint theory, RNE, RTZ conversions) and decided by cvc5 on domain chunks", "reference civil<->MJD conversion uses 4-year cycles of 1461 days (valid 1900-03-01..2100-02-28)"},
@@ -181,21 +185,29 @@ func propTable() map[string]PropSpec {
 		var dec, enc [][]int64
 		counts := map[int64][]int64{0: {0, 1, 4}, 1: {0, 1, 3}, 2: {0, 1, 2}, 3: {0, 1, 2}, 4: {0, 1, 2}, 5: {0}}
 		if level > 0 {
-			counts = map[int64][]int64{0: {0, 1, 2, 4, 16}, 1: {0, 1, 2, 3, 6}, 2: {0, 1, 2, 4}, 3: {0, 1, 2, 4}, 4: {0, 1, 2, 4}, 5: {0}}
+			counts = map[int64][]int64{0: {0, 1, 2, 4, 16}, 1: {0, 1, 2, 3, 6}, 2: {0, 1, 2, 4}, 3: {0, 1, 2, 4}, 4: {0, 1, 2}, 5: {0}} // (EIT with 4 events exceeds the memory guard)
 		}
+		// thorough: larger counts with the quick descriptor-loop shapes, and the richer descriptor loops (0..2 descriptors
+		// in every loop) for tables of at most one entry (rich loops in every entry of a 4-entry table did not finish in 50 min)
 		for k := int64(0); k <= 5; k++ {
 			for _, n := range counts[k] {
-				dec = append(dec, []int64{k, n, -1, level})
+				dec = append(dec, []int64{k, n, -1, 0})
+				if level > 0 && n <= 1 {
+					dec = append(dec, []int64{k, n, -1, 1})
+				}
 			}
 			// two sections per unit: a second section of every kind behind this one
-			dec = append(dec, []int64{k, 1, (k + 1) % 6, level})
+			dec = append(dec, []int64{k, 1, (k + 1) % 6, 0})
 			if level > 0 {
-				dec = append(dec, []int64{k, 1, (k + 3) % 6, level}, []int64{k, 0, k, level})
+				dec = append(dec, []int64{k, 1, (k + 3) % 6, 0}, []int64{k, 0, k, 0})
 			}
 		}
 		for k := int64(0); k <= 1; k++ {
 			for _, n := range counts[k] {
-				enc = append(enc, []int64{k, n, level})
+				enc = append(enc, []int64{k, n, 0})
+				if level > 0 && n <= 1 {
+					enc = append(enc, []int64{k, n, 1})
+				}
 			}
 		}
 		return []TaskSpec{
@@ -211,7 +223,7 @@ func propTable() map[string]PropSpec {
 		ID: "C13", Quick: c13(0), Thorough: c13(1),
 		Bounds: map[string]string{
 			"quick":    "decode: PAT 0/1/4 programs, PMT 0/1/3 streams, SDT/NIT/EIT 0/1/2 entries, TOT; table_id over all variants of the type (EIT: 0x4E..0x6F symbolic); every identifier/flag/version field symbolic; descriptor loops: first loop 0..1 descriptors of {stream identifier, unknown tag, user defined} with 0/2 body bytes, other loops {empty, one stream identifier}; pointer_field in {0,1,5} with arbitrary filler; 1..2 sections per unit; trailing 0xFF stuffing 0/3 bytes; EIT/TOT times are concrete representatives (C15 covers the time kernels); through the Demuxer: a PAT unit of two sections of 45/60/90 programs spanning 3-4 packets with the second section starting inside a continuation packet; through the Muxer: every PMT emitted while streams are added/removed and the PCR PID is moved decodes to the program map of that moment. encode: PAT 0/1/4 programs, PMT 0/1/3 streams with the same descriptor loops, pointer_field 0/2",
-			"thorough": "PAT up to 16 programs, PMT up to 6 streams, SDT/NIT/EIT up to 4 entries, descriptor loops of 0..2 descriptors everywhere, three two-section combinations per kind",
+			"thorough": "PAT up to 16 programs, PMT up to 6 streams, SDT/NIT up to 4 entries (EIT up to 2 events) with the quick descriptor-loop shapes; descriptor loops of 0..2 descriptors in every loop for tables of at most one entry; three two-section combinations per kind",
 		},
 		Outside: "loops up to the 1021/4093-byte section limits (pure repetition of the same loop body); descriptor bodies (C14); DVB time arithmetic (C15)",
 	}
